@@ -137,12 +137,13 @@ def run(ctx: Ctx):
     hs = [json.loads(b) for b in beh]
     good = [h for h in hs if interesting(h)]
     rng.shuffle(good)
-    combos = [(["Si"], "infinite", "build"), (["Si", "C"], "infinite", "multislice"), (["C"], "finite", "build"), (["Si", "O", "C"], "infinite", "build")]
+    combos = [(["Si"], "infinite", "build"), (["Si", "C"], "infinite", "multislice"), (["C", "O"], "finite", "build"), (["Si", "O", "C"], "infinite", "build"),
+              (["C"], "finite", "build"), (["Si", "C"], "finite", "multislice")]
     items = []
     for j, h in enumerate(good[: (60 if quick else 1200)]):
         el, proj, via = combos[j % len(combos)]
-        if quick and proj == "finite" and j % 8 != 2:
-            el, proj, via = combos[0]
+        if quick and proj == "finite" and j >= 18:            # finite projection integrals are slow: the first 18 histories of every seed carry them
+            el, proj, via = combos[j % 2]
         meta = {"hist": h, "elements": el, "projection": proj, "via": via}
         items.append((meta, replay_hist(h, el, proj, via)))
         ctx.case(json.dumps(meta), nontrivial=True)
